@@ -132,6 +132,10 @@ def _work(units):
             ("inf", dict(weights=[float("inf")] + [1] * (n - 1)), "ValueError"),
             ("nan", dict(weights=[float("nan")] + [1] * (n - 1)), "ValueError"),
             ("both", dict(weights=ws, cum_weights=cum), "TypeError"),
+            ("no id, cum len+1", dict(input_id=None, cum_weights=cum + [cum[-1] + 1]), "ValueError"),
+            ("no id, cum all-zero", dict(input_id=None, cum_weights=[0] * n), "ValueError"),
+            ("no id, both", dict(input_id=None, weights=ws, cum_weights=cum), "TypeError"),
+            ("no id, len+1", dict(input_id=None, weights=ws + [1]), "ValueError"),
             # "given" means `is not None`, as in random.choices: an empty sequence is still a given argument
             ("both, weights empty list", dict(weights=[], cum_weights=cum), "TypeError"),
             ("both, weights empty tuple", dict(weights=(), cum_weights=cum), "TypeError"),
@@ -149,7 +153,7 @@ def _work(units):
             if want is None:
                 continue
             acc.add("evaluations")
-            r = _call(fn, "id1", pop, **kw)
+            r = _call(fn, kw.pop("input_id"), pop, **kw) if "input_id" in kw else _call(fn, "id1", pop, **kw)
             if tag == "nan":
                 # random.choices documents no behaviour for NaN; only require: no silent element from a NaN total
                 ok = r[0] == "exc"
@@ -174,6 +178,10 @@ def _work(units):
                 c0 = rs.calls
                 acc.add("evaluations")
                 out = _call(fn, None, pop, ws)
+                out2 = _call(fn, None, pop, cum_weights=cum)
+                if rs.calls != c0 and out2[:2] != out[:2] and not (out[0] == "ok" == out2[0] and out[1] is out2[1]):
+                    acc.violation({"kind": "choice:random", "case": case, "r": repr(r), "observed": short(repr((out, out2))),
+                                   "why": "without an id, weights and their running totals must draw the same element for the same answer of the random source"})  # fmt: skip
                 if rs.calls == c0:
                     acc.add("random_seam_ineffective")
                     ok = out[0] == "ok" and any(out[1] is pop[i] for i in range(n) if fws[i] > 0)
